@@ -75,6 +75,19 @@ Round 5 additions:
     filters the inserted tasks by that date; a name / conditional value stays UNDECIDED.
   Not followed (UNDECIDED): memo tables (`self.<cache>[key]`) as the source of the predecessor list even when used correctly.
 
+Round 6 additions:
+  * the link class may register a new link on its end nodes itself (`_PLink.__init__` appends self to start.<out> / end.<in>): the
+    constructor then plays the connect role (Roles.connect_is_ctor; constructor calls are its call sites); `_PNode(0)` as the
+    common source when the node constructor copies the argument into the earliest-time field;
+  * argument-less one-expression methods / properties of the node and link class (`n.is_source()`) are replaced by their body
+    when the terminal-node filters are read (the selection already went through the Expander);
+  * the arc builder may receive the task and key the arc by `task.id`; an arc that carries its task (`link.task = task`,
+    unconditional) may be the selected element (`v.task` over values()/items());
+  * the constructor's insert condition is expanded first (hoisted `flag = end_date is not None`, continue guards);
+  * C12.pure: a memoising decorator (lru_cache / cache / cached_property) on a function in the reach of WBS.critical_path inside
+    the calculator module -> REFUTED (results keyed by task objects survive the call and go stale);
+  * work term `max(estimate, spent)` -> REFUTED.
+
 Not decided: exactness of the longest-path result as a number (magnitude of the tolerance - a constant above 1e-3 is
 reported UNDECIDED -, float rounding inside the folds), "never empty when the WBS has a leaf" (follows from the clauses,
 not checked on its own), acyclicity handling (the property quantifies over acyclic WBSs), the end_date != None mode
@@ -151,6 +164,22 @@ class Roles:
                 self.connect, self.link_cls = t, ctors[0].targets[0].cls
             elif len(ctors) == 1:
                 self.new_node, self.node_cls = t, ctors[0].targets[0].cls
+        self.connect_is_ctor = False
+        if self.connect is None:
+            # the link class may register a new link on its end nodes itself: `_PLink(units, start, end)` is the connect step
+            for ci in cg.calls_in(self.add):
+                if ci.kind == 'ctor' and ci.targets and ci.targets[0].module is self.mod and len(ci.targets[0].params) >= 4:
+                    li = ci.targets[0]
+                    appends = [c for c in facts.calls_named(li, 'append') if c.args and isinstance(c.args[0], ast.Name)
+                               and c.args[0].id == li.self_name and isinstance(c.func.value, ast.Attribute)
+                               and isinstance(c.func.value.value, ast.Name) and c.func.value.value.id in li.params[1:]]
+                    augs = [n for n in walk_no_nested(li.node) if isinstance(n, ast.AugAssign) and isinstance(n.op, ast.Add)
+                            and isinstance(n.target, ast.Attribute) and isinstance(n.target.value, ast.Name)
+                            and n.target.value.id in li.params[1:] and isinstance(n.value, (ast.List, ast.Tuple))
+                            and len(n.value.elts) == 1 and isinstance(n.value.elts[0], ast.Name) and n.value.elts[0].id == li.self_name]
+                    if len(appends) + len(augs) >= 2:
+                        self.connect, self.link_cls, self.connect_is_ctor = li, li.cls, True
+                        break
         if self.connect is None:
             raise AnalysisError(f"{self.add.qual}: no helper that constructs a link between two nodes")
         if self.node_cls is None:
@@ -173,6 +202,9 @@ class Roles:
     def self_calls(self, f: Func) -> List[Tuple[ast.Call, Func]]:
         out = []
         for ci in self.ctx.cg.calls_in(f):
+            if ci.kind == 'ctor' and getattr(self, 'connect_is_ctor', False) and isinstance(ci.node, ast.Call) and ci.targets \
+                    and ci.targets[0] is self.connect:
+                out.append((ci.node, ci.targets[0]))
             if ci.kind == 'call' and isinstance(ci.node, ast.Call):
                 for t in ci.targets:
                     # methods of the calculator, private helpers that were moved to module level, methods of the other classes
@@ -510,6 +542,12 @@ def _discover(ctx, R: Roles, model):
             model.setdefault('links_attr', table.attr)
             model.setdefault('arc_store', st)
             model.setdefault('id_param', key.id)
+        elif isinstance(key, ast.Attribute) and isinstance(key.value, ast.Name) and key.value.id in add.params \
+                and key.value.id != add.self_name and isinstance(table.value, ast.Name) and table.value.id == add.self_name:
+            model.setdefault('links_attr', table.attr)
+            model.setdefault('arc_store', st)
+            model.setdefault('id_param', key.value.id)
+            model.setdefault('key_sub', key.attr)
     if R.new_node is not None:
         for c in facts.calls_named(R.new_node, 'append'):
             rv = c.func.value
@@ -540,9 +578,12 @@ def _discover(ctx, R: Roles, model):
     if 'add_call' in model and 'id_param' in model:
         ia = bind_args(model['add_call'], add).get(model['id_param'])
         if ia is not None:
-            m = match(f"{task_p}.$k", Expander(ctx.prog, ins, ctx.typer).expand(ia))
-            if m:
+            iax = Expander(ctx.prog, ins, ctx.typer).expand(ia)
+            m = match(f"{task_p}.$k", iax)
+            if m and not model.get('key_sub'):
                 model['key_attr'] = m['k']
+            elif model.get('key_sub') and match(task_p, iax):
+                model['key_attr'] = model['key_sub']
     end_p = init.params[2] if len(init.params) > 2 else None
     earg = bind_args(R.ctor_call, init).get(end_p) if end_p else None
     model['end_param'] = end_p
@@ -570,6 +611,11 @@ def _network_model(ctx, R: Roles, model, o):
     model['link_init'] = linit
     model['link_fields'] = fld
     con = R.connect
+    if R.connect_is_ctor:
+        # the constructor is the connect step: its parameters are the roles, `self` stands for the new link
+        model['connect_ctor'] = ast.Name(id=linit.self_name, ctx=ast.Load())
+        model['connect_fields'] = dict(fld)
+        return
     ctors = [c for c in facts.calls_named(con, R.link_cls)]
     if len(ctors) != 1:
         raise AnalysisError(f"{con.qual} does not construct exactly one {R.link_cls}")
@@ -619,7 +665,8 @@ def _leaf_arcs(ctx, R: Roles, model, o):
         v = exa.expand(val, acfg.node_of(st))
         if isinstance(v, ast.Call) and any(c is val or same(c, v) for c in R.calls_to(add, con)) or \
                 (isinstance(v, ast.Call) and isinstance(v.func, ast.Attribute) and unmangle(v.func.attr) == con.name) or \
-                (isinstance(v, ast.Call) and isinstance(v.func, ast.Name) and con.cls is None and v.func.id == con.name):
+                (isinstance(v, ast.Call) and isinstance(v.func, ast.Name) and con.cls is None and v.func.id == con.name) or \
+                (isinstance(v, ast.Call) and isinstance(v.func, ast.Name) and R.connect_is_ctor and v.func.id == R.link_cls):
             arc_store = (st, table, key, v)
     if arc_store is None:
         o.undecided(add, add.node, add.name, "no `self.<table>[id] = <link built by the connect helper>` store found")
@@ -628,10 +675,23 @@ def _leaf_arcs(ctx, R: Roles, model, o):
     cb = bind_args(linkcall, con)
     model['links_attr'] = table.attr
     model['arc_store'] = st
-    if not (isinstance(key, ast.Name) and key.id in add.params):
+    key_sub = None
+    if isinstance(key, ast.Attribute) and isinstance(key.value, ast.Name) and key.value.id in add.params \
+            and key.value.id != add.self_name:
+        # the builder receives the task itself and keys the arc by one of its attributes: self.<links>[task.id] = link
+        id_param, key_sub = key.value.id, key.attr
+    elif isinstance(key, ast.Name) and key.id in add.params:
+        id_param = key.id
+    else:
         o.undecided(add, st, st, "arc table key is not a parameter of the arc builder")
         return
-    id_param = key.id
+    model['key_sub'] = key_sub
+    # `link.task = task`: the arc may carry its task
+    for st2, tgt2, val2 in facts.attr_stores(add):
+        n2 = acfg.node_of(st2)
+        if key_sub and isinstance(val2, ast.Name) and val2.id == id_param and isinstance(tgt2.value, ast.Name) and n2 is not None \
+                and not acfg.conditions(n2) and not acfg.enclosing_fors(n2) and same(exa.expand(tgt2.value, n2), linkcall):
+            model['link_task_attr'] = tgt2.attr
     conds = acfg.conditions(acfg.node_of(st))
     if conds:
         o.refute(add, st, st, "the arc table entry is written only under a condition (" +
@@ -815,8 +875,11 @@ def _leaf_arcs(ctx, R: Roles, model, o):
         o.undecided(ins, call, w, f"work term `{src(wt)[:120]}`: {msg}")
     # id argument
     ia = ab.get(id_param)
-    if ia is not None and match(f"{task_p}.id", ex.expand(ia, cn)):
+    if ia is not None and model.get('key_sub') is None and match(f"{task_p}.id", ex.expand(ia, cn)):
         o.site(ins, call, f"arc keyed by {task_p}.id")
+        model['key_attr'] = 'id'
+    elif ia is not None and model.get('key_sub') == 'id' and match(task_p, ex.expand(ia, cn)):
+        o.site(ins, call, f"arc keyed by {task_p}.id (the arc builder receives the task)")
         model['key_attr'] = 'id'
     else:
         o.undecided(ins, call, ia if ia is not None else call, "arc key is not `task.id`")
@@ -918,7 +981,12 @@ def _leaf_arcs(ctx, R: Roles, model, o):
         lv_ = fors[-1].target.id
         cs = []
         for t, p in facts.node_conditions(prog, init, c, ctx.typer, expand=False):
-            cs += facts.split_conj(_reduce_when_none(t, end_p, end_attr_), p)
+            tn_ = icfg.node_containing(t)
+            try:
+                tx_ = exi.expand(t, tn_, stop={lv_}) if tn_ is not None else t      # `flag = end_date is not None` hoisted
+            except Exception:       # noqa: BLE001
+                tx_ = t
+            cs += facts.split_conj(_reduce_when_none(tx_, end_p, end_attr_), p)
         # dead when no end date was given?
         if any(_dead_when_none(t, p, end_p, end_attr_) for t, p in cs):
             continue
@@ -1115,6 +1183,11 @@ def _work_term(wt: ast.AST, task_p: str) -> Tuple[str, str]:
     m = match("max($a, $b)", wt) if inner is None else None
     if m:
         ca, cb = facts.const_num(m['a']), facts.const_num(m['b'])
+        if ca is None and cb is None:
+            da, db = _default_zero(m['a'], task_p), _default_zero(m['b'], task_p)
+            if da is not None and db is not None and {da[0], db[0]} == {'estimate', 'spent'}:
+                return 'bad', "the larger of estimate and spent, not their difference clamped at 0"
+
         if cb is not None and ca is None:
             inner, clamp = m['a'], cb
         elif ca is not None and cb is None:
@@ -1790,7 +1863,9 @@ def _passes(ctx, R: Roles, model, o, o_eq):
     if adj_ok:
         OUT, IN = out_attr[0], in_attr[0]
         rets = [n for n in walk_no_nested(con.node) if isinstance(n, ast.Return) and n.value is not None]
-        if not (rets and all(same(exc.expand(r.value), model['connect_ctor']) or
+        if R.connect_is_ctor:
+            o.site(con, con.node, f"a new {R.link_cls}(units, start, end) appends itself to start.{OUT} and end.{IN}")
+        elif not (rets and all(same(exc.expand(r.value), model['connect_ctor']) or
                              getattr(getattr(exc.expand(r.value), 'func', None), 'id', None) == R.link_cls for r in rets)):
             o.undecided(con, con.node, con.name, "connect helper does not return the link it created")
         else:
@@ -1923,7 +1998,20 @@ def _passes(ctx, R: Roles, model, o, o_eq):
         if not isinstance(name_node, ast.Name):
             return False
         v = exk.expand(name_node)
-        return bool(match(f"{node_cls}()", v))
+        return bool(match(f"{node_cls}()", v) or match(f"{node_cls}($*a)", v))
+
+    def ctor_zero(name_node) -> bool:
+        """`begin = _PNode(0)` where the node constructor copies that argument into the earliest-time field"""
+        v = exk.expand(name_node)
+        ninit = prog.find_method(node_cls, '__init__')
+        if not (isinstance(v, ast.Call) and ninit is not None and len(v.args) + len(v.keywords) == 1):
+            return False
+        b_ = bind_args(v, ninit)
+        for st_, tgt_, val_ in facts.attr_stores(ninit, ES):
+            if isinstance(val_, ast.Name) and val_.id in b_ and facts.const_num(b_[val_.id]) == 0 and \
+                    isinstance(tgt_.value, ast.Name) and tgt_.value.id == ninit.self_name:
+                return True
+        return False
 
     sink = None
     for c in R.calls_to(calc, con):
@@ -1940,7 +2028,7 @@ def _passes(ctx, R: Roles, model, o, o_eq):
         flt = None
         if parts and isinstance(parts[1], ast.Name) and match(parts[1].id, parts[0]) and \
                 match(f"self.{nodes_attr}", parts[2]) and len(parts[3]) == 1:
-            et = empty_test(parts[3][0], True)
+            et = empty_test(_inline_graph_predicates(prog, R, parts[3][0]), True)
             if et and et[1] and isinstance(et[0], ast.Attribute) and isinstance(et[0].value, ast.Name) and \
                     et[0].value.id == parts[1].id:
                 flt = et[0].attr
@@ -1954,7 +2042,7 @@ def _passes(ctx, R: Roles, model, o, o_eq):
                 if tn_ is not None and hdr_ is not None and ccfg2.dominates(hdr_, tn_) and tn_ is not hdr_:
                     inner_ += facts.split_conj(exk.expand(t_, tn_, stop={lv}), p_)
             if len(inner_) == 1:
-                et = empty_test(inner_[0][0], inner_[0][1])
+                et = empty_test(_inline_graph_predicates(prog, R, inner_[0][0]), inner_[0][1])
                 if et and et[1] and isinstance(et[0], ast.Attribute) and isinstance(et[0].value, ast.Name) and et[0].value.id == lv:
                     flt = et[0].attr
         uc = facts.const_num(u) if u is not None else None
@@ -1973,7 +2061,7 @@ def _passes(ctx, R: Roles, model, o, o_eq):
                 o.undecided(calc, c, c, "nodes joined to the sink are not `[n for n in self.<nodes> if len(n.<outgoing>) == 0]`")
         elif isinstance(e, ast.Name) and e.id == lv and fresh_node(s):
             # source -> node (optional: sources get 0 anyway)
-            zero_set = False
+            zero_set = ctor_zero(s)
             for st, tgt, val in facts.attr_stores(calc, ES):
                 if isinstance(tgt.value, ast.Name) and tgt.value.id == s.id:
                     cv = facts.const_num(val)
@@ -2107,6 +2195,12 @@ def _passes(ctx, R: Roles, model, o, o_eq):
             o.site(calc, sel['stmt'], f"selected element self.{unmangle(tasks_attr)}[{kv}] in arc-table order")
         else:
             o.undecided(calc, sel['stmt'], elt, "arc table not iterated by items()/keys")
+    elif model.get('link_task_attr') and sel.get('link_var') and match(f"{sel['link_var']}.{model['link_task_attr']}", elt):
+        # the arc carries its task (`link.task = task` in the arc builder)
+        if sel['iter_kind'] in ('items', 'keys', 'values'):
+            o.site(calc, sel['stmt'], f"selected element {src(elt)} (the task stored on the arc) in arc-table order")
+        else:
+            o.undecided(calc, sel['stmt'], elt, "arc table not iterated by items()/keys/values")
     elif isinstance(elt, ast.Subscript) and match(f"self.{tasks_attr}[$k]", elt):
         o.refute(calc, sel['stmt'], elt, f"the selected arc's task is looked up by `{src(elt.slice)}`, not by the arc's key")
     else:
@@ -2120,6 +2214,38 @@ def _passes(ctx, R: Roles, model, o, o_eq):
         o.refute(calc, sel['ret'], rv, f"result `{src(rv)}` is reordered / deduplicated instead of returned in arc order")
     else:
         o.undecided(calc, sel['ret'], rv, "returned value is not the selected list")
+
+
+def _inline_graph_predicates(prog, R: Roles, e: ast.AST) -> ast.AST:
+    """`n.is_source()` -> `len(n.backward_links) == 0`: argument-less one-expression methods (and properties) of the node / link
+    class are replaced by their body, self bound to the receiver"""
+    import copy
+
+    def body_of(name: str) -> Optional[Tuple[ast.AST, str]]:
+        for cls_ in (R.node_cls, R.link_cls):
+            m_ = prog.find_method(cls_, name) or prog.find_getter(cls_, name)
+            if m_ is None or len(m_.params) != 1:
+                continue
+            stmts = [s_ for s_ in m_.node.body if not (isinstance(s_, ast.Expr) and isinstance(s_.value, ast.Constant))]
+            if len(stmts) == 1 and isinstance(stmts[0], ast.Return) and stmts[0].value is not None:
+                return stmts[0].value, m_.params[0]
+        return None
+
+    class T(ast.NodeTransformer):
+        depth = 0
+
+        def visit_Call(self, n):
+            self.generic_visit(n)
+            if isinstance(n.func, ast.Attribute) and not n.args and not n.keywords and self.depth < 4:
+                b = body_of(n.func.attr)
+                if b and prog.find_method(R.node_cls, n.func.attr) or b and prog.find_method(R.link_cls, n.func.attr):
+                    from sa.flow import subst
+                    self.depth += 1
+                    out = self.visit(subst(copy.deepcopy(b[0]), {b[1]: n.func.value}))
+                    self.depth -= 1
+                    return out
+            return n
+    return T().visit(copy.deepcopy(e))
 
 
 def _concat_parts(e: ast.AST) -> List[ast.AST]:
@@ -2644,6 +2770,15 @@ def _pure(ctx, R: Roles, o):
             o.undecided(entry, r, r, "returned value is not <new calculator>.calc()")
     own = [f for f in reach if f.module is R.mod]
     own_classes = {R.cls, R.node_cls, R.link_cls}
+    # a memoising decorator keeps results (keyed by task objects) beyond the call: the next critical_path() sees the old answer
+    for f in own:
+        for d_ in getattr(f.node, 'decorator_list', []):
+            dn = d_.func if isinstance(d_, ast.Call) else d_
+            name_ = dn.attr if isinstance(dn, ast.Attribute) else getattr(dn, 'id', '')
+            if name_ in ('lru_cache', 'cache', 'cached_property', 'memoize', 'memoized'):
+                o.refute(f, d_, d_, f"{f.name} is memoised with @{src(d_)}: its result (computed from the task graph - children, "
+                                    f"predecessors, amounts) is kept across calls of WBS.critical_path and goes stale when the WBS "
+                                    f"changes; the cached value is also one shared mutable object")
     for f in own:
         dws = eff.direct_writes(f)
         bad = 0
